@@ -208,6 +208,8 @@ def discharge_call(run, body, site):
                                 vec_in_closure[0] == "proj" and vec_in_closure[1] == ("arg", 1):
                             return True, "D2: index is the Some payload of position() over the captured vector, handed to this closure by Option::map"
         return False, "Vec::remove(index) in a closure whose index is not tied to a position() over the same vector"
+    if name in ("std::vec::Vec::insert", "std::collections::VecDeque::insert") and len(args) == 3 and _const_int(strip(args[1])) == 0:
+        return True, "insert at index 0 is in bounds for every length"
     if name in ("std::vec::Vec::remove", "std::vec::Vec::swap_remove") and len(args) == 2:
         pos = _some_payload_of(args[1], ("std::iter::Iterator::position",))
         if pos is not None and pos[2]:
@@ -316,10 +318,13 @@ def is_panicky_call(t):
     return None
 
 
-def scan_panics(run, crate, prefix="A2"):
+def scan_panics(run, crate, prefix="A2", only=None, exempt=()):
+    """`only`: predicate selecting the bodies to scan; `exempt`: callee names judged by another rule"""
     n_sites = 0
     dep_calls = {}
     for body in crate.real_bodies():
+        if only is not None and not only(body):
+            continue
         found = 0
         for s in body.sites():
             n = s.node
@@ -349,10 +354,14 @@ def scan_panics(run, crate, prefix="A2"):
             elif n["k"] == "call":
                 kind = is_panicky_call(n)
                 name = cname(n)
+                if name in exempt:
+                    continue
                 if kind is None:
                     if name.startswith(TRUSTED_DEP_PREFIX):
                         dep_calls[name] = dep_calls.get(name, 0) + 1
-                    if n.get("t") is None:
+                    if n.get("t") is None and (n["callee"].get("path") in crate.bodies or n["callee"].get("resolved") in crate.bodies) and exempt:
+                        pass    # a diverging helper of the same crate: its own body is scanned, its exit call judged by the exempting rule
+                    elif n.get("t") is None:
                         run.ob("%s.diverge" % prefix, "%s: %s" % (body.name, name), False,
                                "call to `%s` never returns" % name, site=s, key="%s.diverge|%s|%s" % (prefix, body.name, name))
                     continue
